@@ -835,8 +835,11 @@ static dt_ywd_t
 __ywd_add_w(dt_ywd_t d, int n)
 {
 /* add N weeks to D */
-	signed int tgtc = d.c + n;
+	signed int tgtc;
 
+	/* a year step may have left a week 53 that doesn't exist */
+	d = __ywd_fixup(d);
+	tgtc = d.c + n;
 	return __ywd_fixup_w(d.y, tgtc, (dt_dow_t)d.w, d.hang);
 }
 
